@@ -7,7 +7,7 @@ EXTENDS LoDSM, TLC, Json, IOUtils
 VARIABLES tid, l, st, bad
 T == JsonDeserialize(IOEnv.TRACE_FILE)
 
-InitState(tr) == [items |-> tr.init.items,
+InitState(tr) == [items |-> tr.init.items, hp |-> [i \in DOMAIN tr.init.items |-> 1],
                   lists |-> [i \in DOMAIN tr.init.lists |-> NewList(tr.init.lists[i], {}, {})]]
 
 IsSubSeqOf(s, t) ==      \* s is an order-preserving sub-list of t (by positions)
@@ -15,13 +15,44 @@ IsSubSeqOf(s, t) ==      \* s is an order-preserving sub-list of t (by positions
 
 Expected(s, e) ==
   IF e.a.op = "sample"
-  THEN [items |-> s.items,
+  THEN [items |-> s.items, hp |-> s.hp,
         lists |-> Append(s.lists, NewList(e.obs.lists[Len(e.obs.lists)].its, {e.x}, {e.x}))]
   ELSE Step(s, e)
 
+WarnClause(s, e) ==
+  IF e.obs.warn # (IF s.lists[e.x].oflag /\ ~s.lists[e.x].warned THEN 1 ELSE 0)
+  THEN "SM:warning-not-printed-exactly-once-on-next-use" ELSE ""
+ReaderClause(s, e) ==
+  LET obs == e.obs  op == e.a.op  n == Len(s.lists) IN
+  IF obs.err # "" THEN "SM:raised:" \o op
+  ELSE IF Len(obs.lists) # n THEN "SM:reader-created-a-list:" \o op
+  ELSE IF \E i \in 1..n : obs.lists[i].its # s.lists[i].its THEN "SM:an-existing-list-changed-its-items:" \o op
+  ELSE IF obs.items # s.items THEN "SM:non-modifying-method-changed-an-item:" \o op
+  ELSE IF \E i \in 1..n : s.lists[i].flag = "yes" /\ ~obs.lists[i].ob THEN "SM:must-report-obsolete-but-does-not:" \o op
+  ELSE IF \E i \in 1..n : s.lists[i].flag = "no" /\ obs.lists[i].ob THEN "SM:must-not-report-obsolete-but-does:" \o op
+  ELSE IF ~ReaderOK(s, e, obs.ret) THEN "SM:reader-result-not-a-function-of-the-current-items:" \o op
+  ELSE WarnClause(s, e)
+
+PokedId(s, e) == s.lists[e.x].its[e.a.i + 1]
+PokeClause(s, e) ==
+  LET exp == Step(s, e)  obs == e.obs  n == Len(s.lists) IN
+  IF obs.err # "" THEN "SM:raised:poke"
+  ELSE IF Len(obs.lists) # n \/ \E i \in 1..n : obs.lists[i].its # s.lists[i].its THEN "SM:an-existing-list-changed-its-items:poke"
+  ELSE IF Len(obs.items) # Len(s.items) \/ obs.items[PokedId(s, e)] # exp.items[PokedId(s, e)] THEN "SM:assignment-into-an-item-not-stored"
+  ELSE IF \E j \in DOMAIN s.items : s.hp[j] # s.hp[PokedId(s, e)] /\ obs.items[j] # s.items[j]
+       THEN "SM:assignment-into-one-item-observable-through-an-item-of-another-heap(deepcopy-not-isolated)"
+  ELSE IF \E j \in DOMAIN s.items : \/ DOMAIN obs.items[j] # DOMAIN exp.items[j]      \* same heap: a shared container may show the new value
+                                    \/ \E k \in DOMAIN obs.items[j] : obs.items[j][k] \notin {exp.items[j][k], e.a.v}
+       THEN "SM:assignment-into-one-item-changed-something-else"
+  ELSE IF \E i \in 1..n : s.lists[i].flag = "yes" /\ ~obs.lists[i].ob THEN "SM:must-report-obsolete-but-does-not:poke"
+  ELSE IF \E i \in 1..n : s.lists[i].flag = "no" /\ obs.lists[i].ob THEN "SM:must-not-report-obsolete-but-does:poke"
+  ELSE ""
+
 Clause(s, e) ==
   LET exp == Expected(s, e)  obs == e.obs  op == e.a.op  n == Len(s.lists) IN
-  IF obs.err # "" THEN "SM:raised:" \o op
+  IF op = "poke" THEN PokeClause(s, e)
+  ELSE IF op \in Readers THEN ReaderClause(s, e)
+  ELSE IF obs.err # "" THEN "SM:raised:" \o op
   ELSE IF Len(obs.lists) # Len(exp.lists) THEN "SM:no-new-list:" \o op
   ELSE IF op = "sample" /\ ~(IsSubSeqOf(obs.lists[n + 1].its, s.lists[e.x].its)
                              /\ Len(obs.lists[n + 1].its) = Min2(e.a.n, Len(s.lists[e.x].its)))
@@ -35,22 +66,20 @@ Clause(s, e) ==
        THEN "SM:must-report-obsolete-but-does-not:" \o op
   ELSE IF \E i \in DOMAIN exp.lists : exp.lists[i].flag = "no" /\ obs.lists[i].ob
        THEN "SM:must-not-report-obsolete-but-does:" \o op
-  ELSE IF obs.warn # (IF s.lists[e.x].oflag /\ ~s.lists[e.x].warned THEN 1 ELSE 0)
-       THEN "SM:warning-not-printed-exactly-once-on-next-use"
-  ELSE ""
+  ELSE WarnClause(s, e)
 
 (* adopt the observation (so that the rest of the trace is still examined) *)
 Adopt(s, e) ==
   LET exp == Expected(s, e)  obs == e.obs IN
   IF obs.err # "" \/ Len(obs.lists) # Len(exp.lists) THEN s
-  ELSE [items |-> obs.items,
+  ELSE [items |-> obs.items, hp |-> IF Len(exp.hp) = Len(obs.items) THEN exp.hp ELSE [i \in DOMAIN obs.items |-> 1],
         lists |-> [i \in DOMAIN exp.lists |->
                      [exp.lists[i] EXCEPT !.its = obs.lists[i].its,
                                           !.oflag = obs.lists[i].ob,
-                                          !.warned = IF i = e.x THEN (exp.lists[i].warned \/ s.lists[e.x].oflag)
+                                          !.warned = IF i = e.x /\ e.a.op # "poke" THEN (exp.lists[i].warned \/ s.lists[e.x].oflag)
                                                      ELSE exp.lists[i].warned]]]
 
-Init == tid = 0 /\ l = 0 /\ st = [items |-> <<>>, lists |-> <<>>] /\ bad = ""
+Init == tid = 0 /\ l = 0 /\ st = [items |-> <<>>, hp |-> <<>>, lists |-> <<>>] /\ bad = ""
 Pick == /\ tid = 0 /\ \E t \in 1..Len(T) : tid' = t /\ st' = InitState(T[t])
         /\ l' = 1 /\ bad' = ""
 Next1 == /\ tid > 0 /\ l >= 1 /\ l <= Len(T[tid].steps)
